@@ -52,7 +52,7 @@ def expr(e):
     if k == "qdef":
         return "%s ? %s" % (operand(e["l"]), operand(e["r"]))
     if k == "fstr":
-        return '"%s"' % "".join(p if isinstance(p, str) else "{%s}" % expr(p) for p in e["parts"])
+        return '"%s"' % "".join(p["v"] if p["k"] == "str" else "{%s}" % expr(p) for p in e["parts"])
     if k == "raw":
         return e["v"]
     raise ValueError("cannot render expression kind %r" % k)
